@@ -1,7 +1,10 @@
 """C16 SDO transfers carry values byte-for-byte"""
 import asyncio
+import os
 import random
+import shutil
 import struct
+import tempfile
 
 from .. import aio, bus, use_repo
 from ..core import Result
@@ -74,6 +77,7 @@ def transfer(kind, sz, value, sub, latency, junk, res, desc, sz_in=None,
             objs[index, "CA"] = value
         else:
             objs[index, sub] = value
+    objs[0x7fff, 1] = b"\x05\x06"
     srv = bus.SdoServer(objs, mbx_in_size=sz_in, mbx_out_size=sz,
                         strict_size=not lenient)
     # an earlier session (another program, a restart) has left the
@@ -104,7 +108,8 @@ def transfer(kind, sz, value, sub, latency, junk, res, desc, sz_in=None,
                                                  | (6 << 4)) + pl)
                 return extra + out
             return out
-        t.mbx_handler = handle
+        if not desc.get("prelude"):
+            t.mbx_handler = handle
     b = bus.Bus([t])
 
     async def main(loop):
@@ -113,8 +118,31 @@ def transfer(kind, sz, value, sub, latency, junk, res, desc, sz_in=None,
         term = Terminal(ec)
         term.position = 21
         term.mbx_lock = ec.get_mbx_lock(21)
+        if desc.get("parallel_lock"):
+            # the lock the multi-process master hands out
+            from ebpfcat.lock import LockFile, ParallelMailboxLock
+            term.mbx_lock = ParallelMailboxLock(
+                LockFile(os.path.join(lockdir, "lf"), 0, 100), 21)
+            res.count("transfers_under_the_parallel_lock")
         term.mbx_out_off, term.mbx_out_sz = 0x1000, sz
         term.mbx_in_off, term.mbx_in_sz = 0x1400, sz_in
+        if desc.get("prelude"):
+            res.count("transfers_after_earlier_transfers")
+        for step in (desc.get("prelude") or "").split("+"):
+            # earlier transfers of the same session: one that succeeds, one
+            # that the terminal aborts (missing object)
+            if step == "ok":
+                r0 = await asyncio.wait_for(term.sdo_read(0x7fff, 1), 2000)
+                if r0 != b"\x05\x06":
+                    return ("raised", f"prelude read returned {r0!r}")
+            elif step == "fail":
+                try:
+                    await asyncio.wait_for(term.sdo_read(0x7ffe, 1), 2000)
+                    return ("raised", "upload of a missing object succeeded")
+                except EtherCatError:
+                    res.count("preludes_with_an_aborted_transfer")
+        if junk and desc.get("prelude"):
+            t.mbx_handler = handle
         try:
             if kind == "write":
                 r = await asyncio.wait_for(
@@ -126,12 +154,15 @@ def transfer(kind, sz, value, sub, latency, junk, res, desc, sz_in=None,
             return ("timeout", None)
         except Exception as ex:
             return ("raised", f"{type(ex).__name__}: {str(ex)[:120]}")
+    lockdir = tempfile.mkdtemp(prefix="vf-c16-")
     try:
         out = aio.run(main, max_iterations=30000)
     except aio.Idle as ex:
         # bounded progress: a conformant exchange ends within a few hundred
         # loop iterations; this is a logical-step bound, not a timer
         out = ("timeout", f"transfer did not end: {ex}")
+    finally:
+        shutil.rmtree(lockdir, ignore_errors=True)
     lim = (sz if kind == "write" else sz_in) - 16
     mode = ("expedited" if len(value) <= 4 and sub is not None
             else "normal" if len(value) <= lim else "segmented")
@@ -204,6 +235,7 @@ def concurrent(sz, rng, res):
     t.mbx_resp_latency = lambda: next(lat, 0)
     b = bus.Bus([t])
     desc = dict(mode="concurrent", mailbox=sz, latency=lats,
+                prober=rng.random() < 0.5,
                 jobs=[dict(j, value=j["value"].hex()) for j in jobs])
 
     async def main(loop):
@@ -225,11 +257,32 @@ def concurrent(sz, rng, res):
                 return ("ok", await term.sdo_read(j["index"], j["sub"]))
             except Exception as ex:
                 return ("raised", f"{type(ex).__name__}: {str(ex)[:100]}")
+        stop = []
+
+        async def prober():
+            # somebody scans for free addresses at the same time: reads of
+            # a station address nobody has come back unprocessed
+            from ebpfcat.ethercat import ECCmd
+            n = 0
+            while not stop and n < 200:
+                try:
+                    await ec.roundtrip(ECCmd.FPRD, 0x7a00 + n % 3, 0x10, "H")
+                except EtherCatError:
+                    pass
+                n += 1
+                for _ in range(n % 3):
+                    await asyncio.sleep(0)
+            return n
+        pr = asyncio.ensure_future(prober()) if desc["prober"] else None
         try:
             return await asyncio.wait_for(
                 asyncio.gather(*[job(j) for j in jobs]), 4000)
         except asyncio.TimeoutError:
             return None
+        finally:
+            stop.append(1)
+            if pr is not None:
+                res.count("unanswered_probes_beside_transfers", await pr)
     try:
         outs = aio.run(main, max_iterations=60000)
     except aio.Idle:
@@ -297,6 +350,11 @@ def run_shard(params):
                 desc = dict(kind=kind, mailbox=sz, length=ln, sub=sub,
                             latency=latency, junk=junk,
                             last_counter=rng.choice([0, 0, 1, 1, 2, 7]),
+                            # what the same master did before on this
+                            # terminal, and the lock kind of its mailbox
+                            prelude=rng.choice([None, None, "ok", "fail",
+                                                "ok+fail"]),
+                            parallel_lock=rng.random() < 0.4,
                             value=value.hex()[:64])
                 res.case(desc, nontrivial=ln >= 1)
                 transfer(kind, sz, value, sub, latency, junk, res, desc)
